@@ -95,6 +95,11 @@ func InstallFaults(f *Fed, faults []FaultSpec, barrier int) *FaultLog {
 						}
 						data, _ := Exec(s.Schema, s.Store, doc, in.OperationName, in.Variables)
 						return data, graphql.ErrorList{&graphql.Error{Message: "injected-with-data"}}, true
+					case "gqlerrors+empty":
+						// errors, and a data object that holds nothing (a server that always writes both members)
+						fl.Failures++
+						fl.Errors++
+						return map[string]interface{}{}, graphql.ErrorList{&graphql.Error{Message: "injected-with-empty-data"}}, true
 					case "blank-error":
 						// a server that blanks its messages: the failure is one all the same
 						fl.Failures++
